@@ -20,6 +20,26 @@ use crate::splan::{Route, SWhat};
 use crate::subjects::synth::{Bare, Count, Foo, Odd, Soda};
 use crate::subjects::{amt, Amt};
 
+/// An application's own quantities that carry the same bare type names as
+/// catalogue ones (the way the astronomical crate redefines `Length`): serde is
+/// handed only the bare name ("LengthUnit"), so anything keyed by it is shared.
+pub mod alias {
+    #![allow(dead_code)]
+    use quantities::prelude::*;
+
+    #[quantity]
+    #[ref_unit(Nautical_Mile, "NM")]
+    #[unit(Cable, "cbl", 0.1)]
+    #[unit(Fathom, "ftm", 0.001)]
+    #[unit(Meter, "m*", 0.00054)]
+    pub struct Length {}
+
+    #[quantity]
+    #[unit(Stone, "st")]
+    #[unit(Gram, "gr")]
+    pub struct Mass {}
+}
+
 /// A serialised form, as produced by one of the routes.
 #[derive(Clone, Debug, PartialEq)]
 pub enum Form {
@@ -190,6 +210,8 @@ pub const SYNTH_VARIANTS: &[(&str, &[&str])] = &[
     ("synth::Soda", &["Fizz", "Pop"]),
     ("synth::Count", &["Piece"]),
     ("synth::Bare", &["Each", "Dozen"]),
+    ("alias::Length", &["Meter", "Fathom", "Cable", "NauticalMile"]),
+    ("alias::Mass", &["Gram", "Stone"]),
 ];
 
 pub fn declared_tables_fit() -> bool {
@@ -295,6 +317,8 @@ pub static STABLE: &[STypeEntry] = &[
     entry!("synth::Soda", Soda),
     entry!("synth::Count", Count),
     entry!("synth::Bare", Bare),
+    entry!("alias::Length", alias::Length),
+    entry!("alias::Mass", alias::Mass),
 ];
 
 pub fn subject(what: &SWhat) -> Box<dyn Subject> {
